@@ -40,6 +40,7 @@ def run_rules(mod, chk):
         generic.index_truthiness(chk)
         generic.delay_names(chk)
         generic.round_once_last(chk)
+        generic.loops_iterate(chk)
     chk.repo.on_func = None
     return chk
 
